@@ -1,0 +1,322 @@
+//go:build verif
+// +build verif
+
+// Contracts for the aac package (build tag verif; never compiled into the library).
+// Clauses are pure Go functions bound to their targets by the //@ directive above them; parameters are matched
+// by name to the target's receiver, parameters and results; old_<p> is the entry value of *p.
+// Specification source: ISO/IEC 13818-7 section 6.2 (ADTS), ISO/IEC 14496-3 section 1.6.2.1 (AudioSpecificConfig),
+// ISO/IEC 13818-7 Table 35 (sampling frequencies), and the statement of property C11.
+
+package aac
+
+// ---------- primitives (bodies are used only when a counterexample is replayed) ----------
+
+func prim_sameslice(a, b []byte) bool {
+	return len(a) == len(b) && (len(a) == 0 || &a[0] == &b[0])
+}
+
+func prim_eqbytes(a, b []byte) bool {
+	if len(a) != len(b) {
+		return false
+	}
+	for i := range a {
+		if a[i] != b[i] {
+			return false
+		}
+	}
+	return true
+}
+
+func prim_fresh(a []byte) bool { return true } // "allocated during the call"; not observable at run time
+
+// ---------- ISO field extraction, by bit position ----------
+
+// adts_fixed_header: syncword(12) ID(1) layer(2) protection_absent(1) profile(2) sampling_frequency_index(4)
+// private_bit(1) channel_configuration(3) original/copy(1) home(1)
+// adts_variable_header: copyright_identification_bit(1) copyright_identification_start(1) aac_frame_length(13)
+// adts_buffer_fullness(11) number_of_raw_data_blocks_in_frame(2)
+func spec_adtsSync(d []byte) bool       { return d[0] == 0xff && d[1]&0xf0 == 0xf0 }
+func spec_adtsLayer(d []byte) uint8     { return (d[1] >> 1) & 3 }
+func spec_adtsProtAbsent(d []byte) bool { return d[1]&1 == 1 }
+func spec_adtsProfile(d []byte) uint8   { return d[2] >> 6 }
+func spec_adtsSFI(d []byte) uint8       { return (d[2] >> 2) & 0x0f }
+func spec_adtsChannels(d []byte) uint8  { return (d[2]&1)<<2 | d[3]>>6 }
+func spec_adtsFrameLen(d []byte) int    { return int(d[3]&3)<<11 | int(d[4])<<3 | int(d[5])>>5 }
+func spec_adtsBlocks(d []byte) uint8    { return d[6] & 3 }
+func spec_adtsHdr(d []byte) int {
+	if spec_adtsProtAbsent(d) {
+		return 7
+	}
+	return 9
+}
+
+// The configurations the library accepts (statement of C11).
+func spec_ascValid(c AudioSpecificConfig) bool {
+	okObject := c.Object == 1 || c.Object == 2 || c.Object == 3 || c.Object == 5 || c.Object == 29
+	return okObject && c.SampleRate >= 1 && c.SampleRate <= 12 && c.Channels >= 1 && c.Channels <= 7
+}
+
+// ISO/IEC 13818-7 profile of an MPEG-4 audio object type: Main=0, LC=1 (also for SBR/PS signalled implicitly), SSR=2.
+func spec_profileOf(o ObjectType) uint8 {
+	switch o {
+	case 1:
+		return 0
+	case 2, 5, 29:
+		return 1
+	case 3:
+		return 2
+	}
+	return 3
+}
+
+// ---------- (*ADTSImpl).Encode ----------
+
+//@ requires (*ADTSImpl).Encode
+func req_Encode(v *ADTSImpl, raw []byte) bool {
+	return spec_ascValid(v.asc) && len(raw) >= 1 && len(raw) <= 8184
+}
+
+//@ ensures (*ADTSImpl).Encode C11.encode.ok
+func ens_Encode_ok(v *ADTSImpl, raw []byte, data []byte, err error) bool {
+	return err == nil && len(data) == 7+len(raw)
+}
+
+//@ ensures (*ADTSImpl).Encode C11.encode.header
+func ens_Encode_header(v *ADTSImpl, raw []byte, data []byte, err error) bool {
+	if err != nil || len(data) < 7 {
+		return false
+	}
+	return spec_adtsSync(data) && spec_adtsLayer(data) == 0 && spec_adtsProtAbsent(data) &&
+		spec_adtsProfile(data) == spec_profileOf(v.asc.Object) &&
+		spec_adtsSFI(data) == uint8(v.asc.SampleRate) &&
+		spec_adtsChannels(data) == uint8(v.asc.Channels) &&
+		spec_adtsFrameLen(data) == 7+len(raw) &&
+		spec_adtsBlocks(data) == 0
+}
+
+//@ ensures (*ADTSImpl).Encode C11.encode.payload
+func ens_Encode_payload(v *ADTSImpl, raw []byte, data []byte, err error) bool {
+	return err == nil && len(data) >= 7 && prim_eqbytes(data[7:], raw)
+}
+
+// The returned frame is a new buffer: it shares no memory with the input or with earlier results.
+//@ ensures (*ADTSImpl).Encode C11.encode.fresh
+func ens_Encode_fresh(data []byte) bool {
+	return prim_fresh(data)
+}
+
+//@ ensures (*ADTSImpl).Encode C11.encode.frame
+func ens_Encode_frame(v *ADTSImpl, old_v ADTSImpl) bool {
+	return v.asc == old_v.asc
+}
+
+// ---------- (*ADTSImpl).Decode ----------
+
+// A frame an ISO 13818-7 conformant writer produces for an accepted configuration, followed by anything:
+// either MPEG id, with or without CRC.
+func spec_adtsConformant(d []byte) bool {
+	if len(d) < 8 || !spec_adtsSync(d) {
+		return false
+	}
+	p, s, c := spec_adtsProfile(d), spec_adtsSFI(d), spec_adtsChannels(d)
+	if p > 2 || s < 1 || s > 12 || c < 1 || c > 7 {
+		return false
+	}
+	n := spec_adtsFrameLen(d)
+	return n > spec_adtsHdr(d) && n <= len(d)
+}
+
+//@ ensures (*ADTSImpl).Decode C11.decode.accepts
+func ens_Decode_accepts(data []byte, err error) bool {
+	if spec_adtsConformant(data) {
+		return err == nil
+	}
+	return true
+}
+
+//@ ensures (*ADTSImpl).Decode C11.decode.raw
+func ens_Decode_raw(data []byte, raw []byte, err error) bool {
+	if !spec_adtsConformant(data) {
+		return true
+	}
+	return err == nil && prim_sameslice(raw, data[spec_adtsHdr(data):spec_adtsFrameLen(data)])
+}
+
+//@ ensures (*ADTSImpl).Decode C11.decode.left
+func ens_Decode_left(data []byte, left []byte, err error) bool {
+	if !spec_adtsConformant(data) {
+		return true
+	}
+	return err == nil && prim_sameslice(left, data[spec_adtsFrameLen(data):])
+}
+
+//@ ensures (*ADTSImpl).Decode C11.decode.cfg
+func ens_Decode_cfg(v *ADTSImpl, data []byte, err error) bool {
+	if !spec_adtsConformant(data) {
+		return true
+	}
+	return err == nil && spec_ascValid(v.asc) &&
+		spec_profileOf(v.asc.Object) == spec_adtsProfile(data) &&
+		(v.asc.Object == 1 || v.asc.Object == 2 || v.asc.Object == 3) &&
+		uint8(v.asc.SampleRate) == spec_adtsSFI(data) &&
+		uint8(v.asc.Channels) == spec_adtsChannels(data)
+}
+
+//@ ensures (*ADTSImpl).Decode C11.decode.error-nil-results
+func ens_Decode_err(raw, left []byte, err error) bool {
+	if err == nil {
+		return true
+	}
+	return raw == nil && left == nil
+}
+
+//@ assigns (*ADTSImpl).Decode v.asc
+
+// ---------- lemma: Decode(Encode(r) ++ rest) == (r, rest) ----------
+
+//@ requires lemma_C11_concat
+func req_lemma_concat(cfg AudioSpecificConfig, r, rest []byte) bool {
+	return spec_ascValid(cfg) && len(r) >= 1 && len(r) <= 8184
+}
+
+// The encoder's output followed by any bytes decodes to exactly the raw frame, and the remainder is what followed.
+//@ lemma C11.concat
+func lemma_C11_concat(cfg AudioSpecificConfig, r, rest []byte) bool {
+	a := &ADTSImpl{asc: cfg}
+	enc, err := a.Encode(r)
+	if err != nil {
+		return false
+	}
+	b := &ADTSImpl{}
+	raw, left, err2 := b.Decode(append(enc, rest...))
+	return err2 == nil && prim_eqbytes(raw, r) && prim_eqbytes(left, rest) &&
+		spec_profileOf(b.asc.Object) == spec_profileOf(cfg.Object) && b.asc.SampleRate == cfg.SampleRate && b.asc.Channels == cfg.Channels
+}
+
+// ---------- AudioSpecificConfig ----------
+
+// ISO/IEC 14496-3 1.6.2.1: audioObjectType(5) samplingFrequencyIndex(4) channelConfiguration(4) ...
+func spec_ascObject(d []byte) uint8   { return d[0] >> 3 }
+func spec_ascSFI(d []byte) uint8      { return (d[0]&7)<<1 | d[1]>>7 }
+func spec_ascChannels(d []byte) uint8 { return (d[1] >> 3) & 0x0f }
+
+func spec_ascBitsValid(d []byte) bool {
+	return spec_ascValid(AudioSpecificConfig{Object: ObjectType(spec_ascObject(d)), SampleRate: SampleRateIndex(spec_ascSFI(d)), Channels: Channels(spec_ascChannels(d))})
+}
+
+//@ ensures (*AudioSpecificConfig).UnmarshalBinary C11.asc.accept-iff-valid
+func ens_ascUnmarshal_iff(data []byte, err error) bool {
+	if len(data) < 2 {
+		return err != nil
+	}
+	return (err == nil) == spec_ascBitsValid(data)
+}
+
+//@ ensures (*AudioSpecificConfig).UnmarshalBinary C11.asc.fields
+func ens_ascUnmarshal_fields(v *AudioSpecificConfig, data []byte, err error) bool {
+	if err != nil {
+		return true
+	}
+	return len(data) >= 2 && uint8(v.Object) == spec_ascObject(data) && uint8(v.SampleRate) == spec_ascSFI(data) && uint8(v.Channels) == spec_ascChannels(data)
+}
+
+//@ assigns (*AudioSpecificConfig).UnmarshalBinary v.*
+
+//@ ensures (*AudioSpecificConfig).MarshalBinary C11.asc.marshal
+func ens_ascMarshal(v *AudioSpecificConfig, data []byte, err error) bool {
+	if !spec_ascValid(*v) {
+		return err != nil
+	}
+	return err == nil && len(data) == 2 &&
+		spec_ascObject(data) == uint8(v.Object) && spec_ascSFI(data) == uint8(v.SampleRate) && spec_ascChannels(data) == uint8(v.Channels) &&
+		data[1]&7 == 0
+}
+
+//@ ensures (*AudioSpecificConfig).MarshalBinary C11.asc.marshal-frame
+func ens_ascMarshal_frame(v *AudioSpecificConfig, old_v AudioSpecificConfig) bool {
+	return *v == old_v
+}
+
+// unmarshal(marshal(c)) == c for every accepted configuration
+//@ lemma C11.asc.roundtrip
+func lemma_C11_ascRoundtrip(c AudioSpecificConfig) bool {
+	if !spec_ascValid(c) {
+		return true
+	}
+	b, err := c.MarshalBinary()
+	if err != nil {
+		return false
+	}
+	var d AudioSpecificConfig
+	if err = d.UnmarshalBinary(b); err != nil {
+		return false
+	}
+	return d == c
+}
+
+// marshal(unmarshal(d)) == d with the three bits the library does not model cleared; rejected otherwise (all 65536 inputs)
+//@ lemma C11.asc.roundtrip-bytes
+func lemma_C11_ascRoundtripBytes(d0, d1 byte) bool {
+	var c AudioSpecificConfig
+	err := c.UnmarshalBinary([]byte{d0, d1})
+	if err != nil {
+		return !spec_ascBitsValid([]byte{d0, d1})
+	}
+	b, err := c.MarshalBinary()
+	return err == nil && len(b) == 2 && b[0] == d0 && b[1] == d1&0xf8
+}
+
+// ---------- sampling frequency table (ISO/IEC 13818-7 Table 35) ----------
+
+func spec_sfiHz(i uint8) int {
+	switch i {
+	case 0:
+		return 96000
+	case 1:
+		return 88200
+	case 2:
+		return 64000
+	case 3:
+		return 48000
+	case 4:
+		return 44100
+	case 5:
+		return 32000
+	case 6:
+		return 24000
+	case 7:
+		return 22050
+	case 8:
+		return 16000
+	case 9:
+		return 12000
+	case 10:
+		return 11025
+	case 11:
+		return 8000
+	case 12:
+		return 7350
+	}
+	return 0
+}
+
+//@ ensures SampleRateIndex.ToHz C11.tohz
+func ens_ToHz(v SampleRateIndex, ret0 int) bool {
+	if v > 12 {
+		return true
+	}
+	return ret0 == spec_sfiHz(uint8(v))
+}
+
+// ---------- C07: enum helpers are total, decoders never panic ----------
+
+//@ safe SampleRateIndex.ToHz C07
+//@ safe SampleRateIndex.String C07
+//@ safe ObjectType.String C07
+//@ safe ObjectType.ToProfile C07
+//@ safe Profile.String C07
+//@ safe Profile.ToObjectType C07
+//@ safe Channels.String C07
+//@ safe (*ADTSImpl).Decode C07
+//@ safe (*ADTSImpl).SetASC C07
+//@ safe (*AudioSpecificConfig).UnmarshalBinary C07
